@@ -53,6 +53,14 @@ Definition c05_expected (c:c05_case) :=
   | None => []
   end.
 
+(* what the model says, for replay files of the out-of-domain stream: (0 ok | 1 fatal | 2 panic, values) *)
+Definition c05_model_expected (c:c05_case) :=
+  match register_derive aes128 hmac_sha256 (i_supi c) (i_ea c) (i_ia c) (i_k c) (i_opc c) (i_op c) (i_autn c) (i_rand c) (i_mnc c) (i_mcc c) with
+  | UeOk r => (0, [ue_res_star r; ue_kamf r; ue_knasint r; ue_knasenc r])
+  | UeFatal => (1, [])
+  | UePanic => (2, [])
+  end.
+
 (* the external library on its own (stream `wmnsk`): K, OP or OPc, RAND, SQN, AMF, mcc, mnc ->
    MAC-A, MAC-S (AMF 0000), RES, CK, IK, AK, AK*, RES*, OPc; every method returned without error *)
 Record wm_case := { w_k : bytes; w_op : bytes; w_opc : bytes; w_rand : bytes; w_sqn : bytes; w_amf : bytes; w_mcc : bytes; w_mnc : bytes;
